@@ -413,6 +413,15 @@ func (r *c6Run) finalize(c *c6Chain, e *zerolog.Event, seq int) {
 		e.Msgf("%s/%d", c.id, c.k)
 	case 3:
 		e.MsgFunc(func() string { zsim.Yield("MsgFunc"); return "f:" + c.id })
+	case 4:
+		// the caller keeps its pointer: Discard only marks the event, the finalizing call
+		// through the kept pointer writes nothing and hands the event back exactly once
+		zsim.Probe("discard_then_finalize")
+		e.Discard()
+		e.Msg("m:" + c.id)
+	case 5:
+		zsim.Probe("discard_then_finalize")
+		e.Func(func(e *zerolog.Event) { e.Discard() }).Msg("m:" + c.id)
 	}
 	delete(r.cur, zsim.CurID())
 	c.inflight = false
@@ -684,7 +693,7 @@ func (c06World) Run(prop string, ch *zsim.Choices, trace bool) *RunResult {
 				}
 				c.level = c6Levels[ch.Intn(len(c6Levels))]
 				c.ops = genOps(ch, ch.Intn(7), 0, "f")
-				c.fin = ch.Intn(4)
+				c.fin = ch.Weighted(6, 6, 6, 6, 1, 1)
 				if ch.Chance(1, 5) {
 					c.entry = 1 + ch.Intn(10)
 					c.level = zerolog.ErrorLevel // never optional through level flips: decided by the entry point itself
